@@ -22,14 +22,14 @@ for _pid, _txt in {
         "engine": "sm_engine",
         "technique": "runtime monitor: generated StateMachine subclasses and online-generated call histories under the paused HAL clock, checked against a set-valued executable reference model; every library call bounded by a line budget (sys.monitoring) in the confirming replay",
         "ref": "DESIGN.md section 3",
-        "text": "Real magicbot.StateMachine subclasses (1-6 states, inheritance, overrides) are driven through ~10^4 (quick) / ~4*10^5 (thorough) random histories with adversarial clock steps; the monitor checks " + _txt + ". Held on the executions observed; event-kind counters in the evidence show which situations were actually reached.",
+        "text": "Real magicbot.StateMachine subclasses (1-6 states, rarely 34-40 or 1100 chained ones; inheritance, overrides) are driven - one object also through 100 000 iterations, and through 100+ nested immediate transitions in one iteration - through ~10^4 (quick) / ~4*10^5 (thorough) random histories with adversarial clock steps; the monitor checks " + _txt + ". Held on the executions observed; event-kind counters in the evidence show which situations were actually reached.",
         "note": _SM_NOTE,
     }
 CHECKS["C13"] = {
     "engine": "sm_engine",
     "technique": "runtime monitor: AutonomousStateMachine in lock-step with a plain StateMachine twin engaged every iteration, plus absolute trace rules (nothing after the end; a last timed state never called past first call + duration; argument types; first call after on_enable)",
     "ref": "DESIGN.md section 3 (C13)",
-    "text": "Generated AutonomousStateMachine subclasses run 1-4 autonomous periods (on_enable / on_iteration / on_disable, disable mid-run, many post-end iterations); every state-function call and argument is compared with a twin StateMachine of identical shape that is engage()d before every iteration at the same clock values; after done()/last-state expiry no state function may run and is_executing must stay False until the next on_enable, which must start at the first state with tm 0.",
+    "text": "Generated AutonomousStateMachine subclasses run 1-14 autonomous periods (one object also 160 periods of 1000 loops) (on_enable / on_iteration / on_disable, disable mid-run, many post-end iterations); every state-function call and argument is compared with a twin StateMachine of identical shape that is engage()d before every iteration at the same clock values; after done()/last-state expiry no state function may run and is_executing must stay False until the next on_enable, which must start at the first state with tm 0.",
     "note": "twin and machine share the StateMachine core, so defects of the core itself are C01-C04's business, by design; trusts the paused HAL clock",
 }
 
@@ -105,7 +105,7 @@ CHECKS["C16"] = {
     "engine": "p_delay",
     "technique": "runtime monitor: worker thread in the real NotifierDelay.wait() while the harness moves the paused FPGA clock exactly to the programmed alarm (recording hal proxy); grid arithmetic in integer microseconds",
     "ref": "DESIGN.md section 6 (C16)",
-    "text": "Threaded runs with scripted loop-body durations (0, <<P, P-1, P, P+1, several P) check that the k-th wait() returns at max(t0+k*P, body end) - never before the grid point -, that every programmed alarm is t0+k*P however long bodies took, that free()/with-exit stops and cleans the notifier once and a later wait() returns without touching the HAL; a sweep over whole-microsecond periods in [1 ms, 100 ms] (all 99 001 in the thorough tier) checks the period conversion through the first programmed alarm.",
+    "text": "Threaded runs with scripted loop-body durations (0, <<P, P-1, P, P+1, several P) check that the k-th wait() returns at max(t0+k*P, body end) - never before the grid point -, that every programmed alarm is t0+k*P however long bodies took, that free()/with-exit stops and cleans the notifier once and a later wait() returns without touching the HAL; a sweep over whole-microsecond periods in [1 ms, 100 ms] (all 99 001 in the thorough tier) checks the period conversion through the first programmed alarm; one delay object waits 70 000 times in a row on a robot that has been up for 55 h (accumulation: a float schedule or a re-based tick counter leaves the grid only after tens of thousands of waits).",
     "note": "trusts the HAL simulator's notifier (level-triggered wait); a lost wake-up in the simulator shows up as an inconclusive case, never as a verdict",
 }
 
@@ -113,6 +113,6 @@ CHECKS["C14"] = {
     "engine": "p_selector",
     "technique": "runtime monitor: generated autonomous packages on disk through the real AutonomousModeSelector (constructor, start/periodic/disable API and the run() loop in a gated thread); expected discovery set and per-period callback automaton",
     "ref": "DESIGN.md section 5 (C14)",
-    "text": "Generated packages (modules x classes with MODE_NAME / DISABLED / DEFAULT, duplicates, several defaults, failing imports, syntax errors, failing constructors, shared helper classes, missing package) x FMS on/off x selection source (chooser default, SendableChooserSim, 'Auto Selector' naming a mode or nothing): constructor calls exactly once per eligible class, selector.modes and the chooser topics (options, default) read from NetworkTables, start-up exception iff a fault exists and no FMS, healthy modes all offered under FMS; per period the chosen mode gets on_enable, one on_iteration(t) per loop with non-decreasing t, on_disable; no other mode gets anything; nothing after on_disable.",
+    "text": "Generated packages (modules x classes with MODE_NAME / DISABLED / DEFAULT, duplicates, several defaults, failing imports, syntax errors, failing constructors, shared helper classes, missing package) x FMS on/off x selection source (chooser default, SendableChooserSim, 'Auto Selector' naming a mode or nothing): constructor calls exactly once per eligible class, selector.modes and the chooser topics (options, default) read from NetworkTables, start-up exception iff a fault exists and no FMS, healthy modes all offered under FMS; per period the chosen mode gets on_enable, one on_iteration(t) per loop with non-decreasing t (t tracking the FPGA clock between iterations, also in run() periods of up to 260 iterations with iterations that overrun the loop period), on_disable; no other mode gets anything; nothing after on_disable.",
     "note": "under tolerated faults (FMS) the preselected entry and which duplicate instance runs are don't-cares; mode classes re-exported by a second module are not generated",
 }
